@@ -64,9 +64,9 @@ Example reply_trace_example :
 Proof. vm_compute. reflexivity. Qed.
 
 (* ---------- what the correspondence check relies on ---------- *)
-(* The run-time oracle p_c03 (ChkX.v, clauses 5-8: the programs called are a duplicate-free subsequence of the pre-order of the tree; every reply
+(* The run-time oracle p_c03 (ChkX.v, clauses 5-9: the programs called are a duplicate-free subsequence of the pre-order of the tree; every reply
    entry has the id, payload, result kind, mode, contract and dispatcher the tree prescribes; of the two reply handlers of a
-   sub-message at most one is entered) accepts the model's own run of EVERY well-formed scenario, in every case
+   sub-message at most one is entered; a reply that is due for a leaf execute was entered — judged when the call contains no migration) accepts the model's own run of EVERY well-formed scenario, in every case
    environment: an implementation that behaves exactly like the model is never flagged, and "agrees with the model"
    implies "satisfies the oracle's reading of C03".
    Premise [wf_scenario] (ExecOracle.v) is what the generator guarantees (harness/exec_common/src/gen.rs): in every
@@ -84,6 +84,6 @@ Proof. exact (conj ex_scenario_wf (C03_model_ok ex_ce ex_scenario ex_scenario_wf
 (* conversely, an Agree verdict of the check means: the oracle accepted every step of what the IMPLEMENTATION did, and
    trace, outcome and state agreed with the model at every step *)
 Theorem C03_agree_sound ce steps : c03 ce steps = Agree ->
-  oracle_steps p_c03 steps 0 = None /\ corr ce steps empty_chain 0 = None.
-Proof. exact (check_with_agree_sound p_c03 ce steps). Qed.
+  oracle_steps (p_c03 ce) steps 0 = None /\ corr ce steps empty_chain 0 = None.
+Proof. exact (check_with_agree_sound (p_c03 ce) ce steps). Qed.
 Print Assumptions C03_agree_sound.
